@@ -208,12 +208,16 @@ UNIT = {
      ],
      'rewrites': [
         {'where': 'sig', 'rule': 'R2', 'find': 'fn locate_xref_offset(&self)', 'replace': 'fn locate_xref_offset<B: Backend>(this: &B)'},
-        {'rule': 'R7', 'find': 'b"startxref"', 'replace': 'hoist_kw_startxref()'},
-        {'rule': 'R1', 'find': 'let mut lexer = Lexer::new(t!(self.read(..)));', 'replace': 'let mut lexer = Lexer::new(t!(self.read(..)));\n        proof { assert(lexer.buf@ =~= this.bytes()); }'},
-        {'rule': 'R1', 'find': 't!(lexer.seek_substr_back(hoist_kw_startxref()));',
-         'replace': '''t!(lexer.seek_substr_back(hoist_kw_startxref()));
-        proof { assert(lexer.buf@ == this.bytes().subrange(0, this.bytes().len() as int)); assert(lexer.buf@ =~= this.bytes()); assert(last_startxref(this.bytes(), lexer.pos - 9)); assert(!no_startxref(this.bytes())); }'''},
-        {'rule': 'R2', 'find': 'self.', 'replace': 'this.', 'count': 1},
+        {'rule': 'R7', 'regex': r'b"startxref"', 'replace': 'hoist_kw_startxref()', 'count': '*'},
+        {'rule': 'R3', 'regex': r'PdfError::NotFound\s*\{\s*word:[^{}]*\}', 'replace': 'PdfError::NotFound', 'count': '*'},
+        {'rule': 'R2', 'regex': r'\bself\.', 'replace': 'this.', 'count': '*'},
+        # ghost hints by SHAPE (names captured); every hint is an `if` over the fact it introduces, never an `assert` of it:
+        # a body that searches differently (other start, other direction) fails the POSTCONDITION, not a proof step
+        {'rule': 'R1', 'regex': r'let\s+mut\s+(\w+)\s*=\s*Lexer::new\(([^;]*)\);',
+         'replace': r'let mut \1 = Lexer::new(\2);' '\n        ' r'proof { if \1.buf@ =~= this.bytes() {} lemma_kw_head_unique(); }'},
+        {'rule': 'R1', 'regex': r'(\b(\w+)\.seek_substr(?:_back)?\([^;]*;)',
+         'replace': r'\1' '\n        ' r'proof { if \2.buf@ =~= this.bytes() {}'
+                    r' if last_startxref(this.bytes(), \2.pos - 9) { assert(!no_startxref(this.bytes())); } }'},
      ]},
  },
  'kani': {
